@@ -5,15 +5,15 @@
    faithfulness and absence of stack underflow.  The AST is picked by the first
    step (one initial state per family, so that all workers are used).          *)
 EXTENDS XPathMachine, XPathSets
-CONSTANTS Fams, Faults
-VARIABLE fam
-MCInit == /\ fam \in Fams /\ ast = NoArg /\ prog = << >> /\ st = InitState /\ failAt = 0
+CONSTANTS Fams, Faults, NChunks
+VARIABLES fam, chunk
+MCInit == /\ fam \in Fams /\ chunk \in 0..(NChunks - 1) /\ ast = NoArg /\ prog = << >> /\ st = InitState /\ failAt = 0
 Pick == /\ prog = << >>
-        /\ \E e \in Family(fam) : \E f \in 0..Faults :
+        /\ \E e \in FamilyC(fam, chunk, NChunks) : \E f \in 0..Faults :
              /\ ast' = e /\ prog' = Compile(e) /\ failAt' = f
-        /\ UNCHANGED <<st, fam>>
-MCNext == Pick \/ (prog # << >> /\ MStep /\ UNCHANGED fam)
-MCSpec == MCInit /\ [][MCNext]_<<mvars, fam>>
+        /\ UNCHANGED <<st, fam, chunk>>
+MCNext == Pick \/ (prog # << >> /\ MStep /\ UNCHANGED <<fam, chunk>>)
+MCSpec == MCInit /\ [][MCNext]_<<mvars, fam, chunk>>
 Picked == prog # << >>
 MCCorrect == Picked => Correct
 MCValueXorError == Picked => ValueXorError
